@@ -122,6 +122,9 @@ class Run:
         # the demonstration scripts of the defect hunt that belong to this property (regression probes for the repaired ones, detectors for the recorded ones)
         from vf import huntprobes
         huntprobes.run(self, self.pid)
+        # frame / memo obligations on the module-level state of the modules that compute this property's answer
+        from vf import modstate
+        modstate.run(self, self.pid)
         cov = self.cov
         cov["explanation"] = explanation
         if checker_cmd:
